@@ -12,33 +12,11 @@
 //   reset tempty                 default-constructed igris::ring<int> (only resize may follow)
 // one-line cases (round 3): reset widths | reset premain | reset hist <size> <script> |
 //   reset histt <n> <script> | reset longrun <size> <n> | reset sizezero <what> | reset movedpush <n>
-// Translation units: C03.cpp (this file: run), C03_life.cpp (lifeprobe / lifecount), C03_gen.cpp (gen).
+// Translation units: see C03_common.h.
 // Result line = "<ret> <state…>" (state = every counter the API reports).
 // Oracle = a std::deque / std::vector mirror maintained by the harness only
 // from the operations' arguments and the documented contract.
-#include "common/hv.h"
-#include "C03_acc.h"
-#include <deque>
-#include <memory>
-#include <climits>
-#include <cstring>
-#include <map>
-#include <type_traits>
-#include <igris/datastruct/ring.h>
-#include <igris/datastruct/ring_counter.h>
-#include <igris/container/ring.h>
-#include <igris/container/cyclic_buffer.h>
-#include <igris/datastruct/bytering.h>
-#include <igris/container/array_view.h>
-
-using namespace hv;
-typedef std::vector<uint8_t> bytes;
-
-static_assert(sizeof(int) == 4 && sizeof(unsigned) == 4 && sizeof(size_t) == 8, "LP64");
-static_assert(CHAR_MIN < 0, "char is signed on this platform");
-
-static int64_t emod(int64_t a, int64_t m) { return ((a % m) + m) % m; }
-static std::string S(int64_t v) { return std::to_string(v); }
+#include "C03_common.h"
 
 // ===================================================================== C ring
 struct CRing
@@ -335,489 +313,12 @@ static void run_cring(const std::vector<std::string> &w, out &o)
     o.result = ret + " " + cring_state(r);
 }
 
-// ================================================================== typed ring
-template <class T> struct TR
-{
-    std::unique_ptr<igris::ring<T>> t;
-    std::deque<T> q;
-    static constexpr bool is_char = sizeof(T) == 1;
-
-    std::string state()
-    {
-        auto &x = *t;
-        return S(x.head_index()) + " " + S(x.tail_index()) + " " + S(x.avail()) + " " + S(x.room()) + " " +
-               S(x.size()) + " " + S(x.empty() ? 1 : 0) + " " + S(std::min<uint64_t>(acc::bufsize(x), acc::rsize(x)));
-    }
-    void resync()
-    {
-        auto &x = *t;
-        q.clear();
-        uint64_t size = acc::rsize(x);
-        if (!size || acc::rhead(x) >= size || acc::rtail(x) >= size || acc::bufsize(x) < size) return;
-        for (uint64_t i = acc::rtail(x); i != acc::rhead(x); i = (i + 1) % size) q.push_back(acc::slot(x, i));
-    }
-    void check(out &o)
-    {
-        auto &x = *t;
-        uint64_t size = acc::rsize(x);
-        if (acc::bufsize(x) < size)
-            o.fail("ring size " + S(size) + " exceeds its buffer of " + S(acc::bufsize(x)) + " elements");
-        if (!(acc::rhead(x) < size)) o.fail("head outside [0,size)");
-        if (!(acc::rtail(x) < size)) o.fail("tail outside [0,size)");
-        if ((uint64_t)x.avail() + x.room() != size - 1) o.fail("avail+room != size-1");
-        if (x.avail() != q.size()) o.fail("avail " + S(x.avail()) + " != reference " + S(q.size()));
-        if (x.empty() != q.empty()) o.fail("empty() disagrees with reference");
-        if (acc::rhead(x) < acc::rtail(x)) o.tag("wrapped");
-        if (size & (size - 1)) o.tag("nonpow2");
-        if (acc::rhead(x) == 0) o.tag("head0");
-        // stored elements = reference queue, in order
-        if (acc::bufsize(x) >= size && acc::rtail(x) < size && x.avail() == q.size())
-        {
-            uint64_t i = acc::rtail(x);
-            for (size_t k = 0; k < q.size(); k++, i = (i + 1) % size)
-                if (acc::slot(x, i) != q[k]) { o.fail("stored element " + S(k) + " differs from reference"); break; }
-        }
-    }
-    void run(const std::vector<std::string> &w, out &o)
-    {
-        auto &x = *t;
-        const std::string &op = w[0];
-        int64_t size = acc::rsize(x);
-        std::string ret = "-";
-        if (op == "push" || op == "emplace")
-        {
-            T v = (T)strtol(w[1].c_str(), 0, 10);
-            bool full = (int64_t)q.size() == size - 1;
-            if (op == "push") x.push(v); else x.emplace(v);
-            if (full) { resync(); o.tag("overmove"); } else q.push_back(v);
-        }
-        else if (op == "pop")
-        {
-            bool empty = q.empty();
-            x.pop();
-            if (empty) { resync(); o.tag("overmove"); } else q.pop_front();
-        }
-        else if (op == "pushfull" || op == "popempty")
-        { // the property's clause "a full ring rejects writes / an empty ring rejects reads without
-          // changing state", judged on push()/pop() of the typed ring (recorded finding: they do not test)
-            unsigned h0 = acc::rhead(x), t0 = acc::rtail(x), a0 = x.avail();
-            if (op == "pushfull") x.push((T)strtol(w[1].c_str(), 0, 10)); else x.pop();
-            bool applies = op == "pushfull" ? (int64_t)q.size() == size - 1 : q.empty();
-            if (applies && (acc::rhead(x) != h0 || acc::rtail(x) != t0 || x.avail() != a0))
-                o.fail(op == "pushfull" ? "push on a full ring was not rejected: " + S(a0) + " stored elements became " + S(x.avail())
-                                        : "pop on an empty ring was not rejected: avail became " + S(x.avail()));
-            else if (!applies) { if (op == "pushfull") q.push_back((T)strtol(w[1].c_str(), 0, 10)); else q.pop_front(); }
-            if (applies) { resync(); o.tag("overmove"); }
-        }
-        else if (op == "pushalias")
-        { // the argument aliases the slot that push() constructs into
-            bool full = (int64_t)q.size() == size - 1;
-            T v = x.head_place();
-            x.push(x.head_place());
-            if (full) { resync(); o.tag("overmove"); } else q.push_back(v);
-            o.tag("alias");
-        }
-        else if (op == "clear") { x.clear(); q.clear(); if (!x.empty()) o.fail("not empty after clear"); }
-        else if (op == "mh1") { x.move_head_one(); resync(); }
-        else if (op == "mt1") { x.move_tail_one(); resync(); }
-        else if (op == "rst")
-        {
-            x.reset(); q.clear();
-            if (x.size() != acc::bufsize(x)) o.fail("reset: ring size != buffer size");
-        }
-        else if (op == "resize")
-        {
-            size_t n = strtoul(w[1].c_str(), 0, 10);
-            x.resize(n); q.clear();
-            if (x.room() != n) o.fail("resize(" + S(n) + "): room " + S(x.room()));
-        }
-        else if (op == "tail")
-        {
-            T &e = x.tail();
-            ret = S((int)e) + "@" + S(x.index_of(&e));
-            if (x.index_of(&e) != (int)acc::rtail(x)) o.fail("tail() addresses slot " + S(x.index_of(&e)));
-            if (!q.empty() && e != q.front()) o.fail("tail() is not the oldest element");
-        }
-        else if (op == "last")
-        {
-            T &e = x.last();
-            int idx = x.index_of(&e);
-            ret = S((int)e) + "@" + S(idx);
-            if (idx != emod((int64_t)acc::rhead(x) - 1, size))
-                o.fail("last() addresses slot " + S(idx) + " at head " + S(acc::rhead(x)) + " size " + S(size));
-            else if (!q.empty() && e != q.back()) o.fail("last() is not the newest element");
-        }
-        else if (op == "headplace") ret = S((int)x.head_place());
-        else if (op == "get") ret = S((int)x.get((int)strtol(w[1].c_str(), 0, 10)));
-        else if (op == "getlast")
-        {
-            int off = (int)strtol(w[1].c_str(), 0, 10), cnt = (int)strtol(w[2].c_str(), 0, 10);
-            bool fe = w[3] == "1";
-            std::vector<T> v = x.get_last(off, cnt, fe);
-            ret = "";
-            for (int i = 0; i < cnt; i++) ret += (i ? "," : "") + S((int)v[i]);
-            if (cnt == 0) ret = "-";
-            for (int i = 0; i < cnt; i++)
-            {
-                int64_t back = fe ? (int64_t)off + i : (int64_t)off + cnt - 1 - i; // 0 = newest
-                int64_t slot = emod((int64_t)acc::rhead(x) - 1 - back, size);
-                if (v[i] != acc::slot(x, slot))
-                    o.fail("get_last element " + S(i) + " is not slot " + S(slot));
-                else if (back >= 0 && back < (int64_t)q.size() && v[i] != q[q.size() - 1 - back])
-                    o.fail("get_last element " + S(i) + " is not the " + S(back) + "-th previous element");
-            }
-            if (off + cnt > (int64_t)acc::rhead(x)) o.tag("getlast-wrap");
-        }
-        else if (op == "fixup")
-        {
-            int i = (int)strtol(w[1].c_str(), 0, 10);
-            int v = x.fixup_index(i);
-            ret = S(v);
-            if (v != emod(i, size)) o.fail("fixup_index(" + S(i) + ") = " + S(v) + " for size " + S(size));
-            if (i < 0) o.tag("fix-neg");
-        }
-        else if (op == "distance")
-        {
-            int a = (int)strtol(w[1].c_str(), 0, 10), b = (int)strtol(w[2].c_str(), 0, 10);
-            int v = x.distance(a, b);
-            ret = S(v);
-            if (v != emod((int64_t)a - b, size)) o.fail("distance(" + S(a) + "," + S(b) + ") = " + S(v));
-            if (a < b) o.tag("distance-wrap");
-        }
-        else if (op == "setlast")
-        {
-            int i = (int)strtol(w[1].c_str(), 0, 10);
-            x.set_last_index(i);
-            if ((int64_t)acc::rhead(x) != emod((int64_t)i + 1, size)) o.fail("set_last_index: head " + S(acc::rhead(x)));
-            resync();
-        }
-        else if (op == "settail")
-        { // `r` is a public member ("direct control"): place the tail, e.g. next to an index-width boundary
-            acc::set_tail(x, (unsigned)strtoul(w[1].c_str(), 0, 10));
-            resync();
-        }
-        else if (op == "fillbuf")
-        { // the buffer is public too: slot i := i + 1, so that a store to a wrong slot is visible
-            for (size_t i = 0; i < acc::bufsize(x); i++) acc::slot(x, i) = (T)(i + 1);
-            resync();
-        }
-        else if (op == "copy")
-        { // implicit copy constructor; the original is destroyed, the copy carries on
-            std::unique_ptr<igris::ring<T>> c(new igris::ring<T>(x));
-            if (acc::storage(*c) == acc::storage(x)) o.fail("copy shares the storage");
-            t = std::move(c);
-            o.tag("copy");
-        }
-        else if (op == "assign")
-        { // implicit copy assignment into a ring of another size
-            std::unique_ptr<igris::ring<T>> c(new igris::ring<T>(3));
-            c->push((T)9);
-            *c = x;
-            if (acc::storage(*c) == acc::storage(x)) o.fail("assignment shares the storage");
-            t = std::move(c);
-            o.tag("copy");
-        }
-        else if (op == "move")
-        { // implicit move constructor; what is left in the moved-from object is printed
-            std::unique_ptr<igris::ring<T>> c(new igris::ring<T>(std::move(x)));
-            ret = S(acc::bufsize(x, 0)) + " " + S(acc::rsize(x)); // (without the member: a moved-from ring is predicted to own nothing)
-            t = std::move(c);
-            o.tag("move");
-        }
-        else if (op == "moveback")
-        { // the moved-from ring is brought back to life by resize(); the moved-to object is dropped
-            size_t n = strtoul(w[1].c_str(), 0, 10);
-            { igris::ring<T> c(std::move(x)); }
-            x.resize(n); q.clear();
-            if (x.room() != n || acc::bufsize(x) != n + 1) o.fail("resize of a moved-from ring: room " + S(x.room()));
-            o.tag("move");
-        }
-        else if (op == "writebig" || op == "readbig")
-        { // round 3b: a request of 2^32 + k elements (the parameter is a size_t).  No ring can take / deliver more
-          // than size - 1 elements, so a source / destination of size + 1 elements is all such a call may touch.
-            if constexpr (is_char)
-            {
-                size_t k = strtoul(w[1].c_str(), 0, 10), req = ((size_t)1 << 32) + k;
-                if (op == "writebig")
-                {
-                    bytes d = unhex(w[2]);
-                    if (d.size() < (size_t)size + 1) { o.result = "bad-op"; return; }
-                    exact_buf src(d);
-                    size_t acc = (size_t)(size - 1) - q.size();
-                    size_t rc = x.write((const char *)src.p, req);
-                    ret = S(rc);
-                    if (rc != acc) o.fail("write of 2^32+" + S(k) + " elements returned " + S(rc) + ", room was " + S(acc));
-                    for (size_t i = 0; i < acc; i++) q.push_back((char)d[i]);
-                }
-                else
-                {
-                    exact_buf dst((size_t)size + 1);
-                    size_t n = q.size();
-                    size_t rc = x.read((char *)dst.p, req);
-                    ret = S(rc) + " " + hex(dst.p, std::min(rc, (size_t)size + 1));
-                    if (rc != n) o.fail("read of 2^32+" + S(k) + " elements returned " + S(rc) + " with " + S(n) + " stored");
-                    for (size_t i = 0; i < n; i++)
-                    {
-                        if (i < rc && (char)dst.p[i] != q.front()) o.fail("read: byte " + S(i) + " altered");
-                        q.pop_front();
-                    }
-                }
-                o.tag("size_t-request");
-            }
-            else { o.result = "bad-op"; return; }
-        }
-        else if (op == "write" || op == "read")
-        {
-            if constexpr (is_char)
-            {
-                if (op == "write")
-                {
-                    bytes d = unhex(w[1]);
-                    exact_buf src(d);
-                    size_t acc = std::min(d.size(), (size_t)(size - 1) - q.size());
-                    size_t rc = x.write((const char *)src.p, d.size());
-                    ret = S(rc);
-                    if (rc != acc) o.fail("write returned " + S(rc) + ", room was " + S(acc));
-                    for (size_t i = 0; i < acc; i++) q.push_back((char)d[i]);
-                }
-                else
-                {
-                    size_t n = strtoul(w[1].c_str(), 0, 10);
-                    exact_buf dst(n);
-                    size_t k = std::min(n, q.size());
-                    size_t rc = x.read((char *)dst.p, n);
-                    ret = S(rc) + " " + hex(dst.p, std::min(rc, n));
-                    if (rc != k) o.fail("read returned " + S(rc) + " with " + S(q.size()) + " stored");
-                    for (size_t i = 0; i < k; i++)
-                    {
-                        if (i < rc && (char)dst.p[i] != q.front()) o.fail("read: byte " + S(i) + " altered");
-                        if ((uint8_t)q.front() == 0xff) o.tag("ff");
-                        q.pop_front();
-                    }
-                }
-            }
-            else { o.result = "bad-op"; return; }
-        }
-        else { o.result = "bad-op"; return; }
-        check(o);
-        o.result = ret + " " + state();
-    }
-};
-static TR<int> ti;
-static TR<char> tc;
-
-// =============================================================== cyclic buffer
-struct Cyc
-{
-    std::unique_ptr<igris::cyclic_buffer<int>> c;
-    std::vector<int> log; // every sample pushed since construction / resize
-    size_t cap = 0;
-};
-static Cyc cy;
-
-static void run_cyc(const std::vector<std::string> &w, out &o)
-{
-    auto &x = *cy.c;
-    const std::string &op = w[0];
-    std::string ret = "-";
-    size_t n = cy.log.size();
-    if (op == "push")
-    {
-        int v = (int)strtol(w[1].c_str(), 0, 10);
-        int old = x.push(v);
-        ret = S(old);
-        int exp = n >= cy.cap ? cy.log[n - cy.cap] : 0;
-        if (old != exp) o.fail("push returned " + S(old) + ", the overwritten sample is " + S(exp));
-        cy.log.push_back(v);
-        if (n >= cy.cap) o.tag("overwrite");
-    }
-    else if (op == "at")
-    {
-        int i = (int)strtol(w[1].c_str(), 0, 10);
-        int v = x[i];
-        ret = S(v);
-        {
-            const igris::cyclic_buffer<int> &cx = x; // the const overload has its own body
-            if (cx[i] != v) o.fail("const operator[] disagrees with operator[]");
-        }
-        size_t k = (size_t)emod(i, (int64_t)cy.cap); // slots repeat with period cap (negative i: counter - i < size)
-        int exp = k < n ? cy.log[n - 1 - k] : 0;
-        if (i < 0) o.tag("nth-neg");
-        if (v != exp) o.fail("cb[" + S(i) + "] = " + S(v) + ", the " + S(k) + "-th previous sample is " + S(exp));
-        if (i >= 0 && (size_t)i < std::min(n, cy.cap)) o.tag("nth");
-        if (i >= 0 && n > cy.cap && n % cy.cap < (size_t)i % cy.cap + 1) o.tag("nth-wrap");
-    }
-    else if (op == "resize")
-    {
-        cy.cap = strtoul(w[1].c_str(), 0, 10);
-        x.resize(cy.cap);
-        cy.log.clear();
-    }
-    else { o.result = "bad-op"; return; }
-    // `counter` / `data` are data members the property does not name: read when they exist, else the reference's value
-    long cnt = acc::cyc_counter(x, cy.cap ? (long)(cy.log.size() % cy.cap) : 0), csz = acc::cyc_counter_size(x, (long)cy.cap);
-    if (cnt < 0 || cnt >= csz) o.fail("counter outside [0,size)");
-    if ((size_t)csz != acc::cyc_data_size(x, cy.cap)) o.fail("counter size != data size");
-    if (x.size() != std::min(cy.log.size(), cy.cap))
-        o.fail("size() " + S(x.size()) + " != " + S(std::min(cy.log.size(), cy.cap)));
-    if (cy.cap & (cy.cap - 1)) o.tag("nonpow2");
-    o.result = ret + " " + S(cnt) + " " + S(x.size());
-}
-
-static ring_counter rcs;
-static void run_rc(const std::vector<std::string> &w, out &o)
-{
-    const std::string &op = w[0];
-    std::string ret = "-";
-    int64_t a = w.size() > 1 ? strtol(w[1].c_str(), 0, 10) : 0;
-    int64_t size = rcs.size, before = rcs.counter;
-    if (op == "inc")
-    {
-        ring_counter_increment(&rcs, (int)a);
-        if (before + a >= 0 && rcs.counter != emod(before + a, size)) o.fail("increment: counter " + S(rcs.counter));
-        if (before + a < 0) o.tag("inc-neg");
-        if (before + a >= 2147483000) o.tag("int-edge");
-    }
-    else if (op == "set")
-    {
-        ring_counter_set(&rcs, (int)a);
-        if (a >= 0 && rcs.counter != emod(a, size)) o.fail("set: counter " + S(rcs.counter));
-    }
-    else if (op == "prev")
-    {
-        int v = ring_counter_prev(&rcs, (int)a);
-        ret = S(v);
-        // contract of ring_counter_prev: counter - i < size (every i >= 0 for a counter in range, and
-        // the negative i > counter - size); beyond it the result is >= size and only compared with the model
-        if (before - a < size && v != emod(before - a, size)) o.fail("prev(" + S(a) + ") = " + S(v));
-        if (a > before) o.tag("prev-wrap");
-        if (a < 0) o.tag(before - a < size ? "prev-neg" : "prev-beyond");
-    }
-    else if (op == "last")
-    {
-        int v = ring_counter_last(&rcs, (int)a);
-        ret = S(v);
-        if (v != emod(before - a, size)) o.fail("last(" + S(a) + ") = " + S(v));
-        if (a > before) o.tag("prev-wrap");
-    }
-    else if (op == "fixpos")
-    {
-        int v = ring_counter_fixup_pos(&rcs, (int)a);
-        ret = S(v);
-        if (v != emod(a, size)) o.fail("fixup_pos(" + S(a) + ") = " + S(v));
-        if (a < 0) o.tag("fix-neg");
-    }
-    else if (op == "get") ret = S(ring_counter_get(&rcs));
-    else { o.result = "bad-op"; return; }
-    if (size & (size - 1)) o.tag("nonpow2");
-    o.result = ret + " " + S(rcs.counter);
-}
 
 // ============================================================ lifetime probes
 // (second translation unit harness/C03_life.cpp)
 void run_lifeprobe(const std::vector<std::string> &w, out &o);
 void run_lifecount(const std::vector<std::string> &w, out &o);
 void run_arr(const std::vector<std::string> &w, out &o);
-
-// ================================================================== bytering
-// igris/datastruct/bytering.h: the pointer version of the byte ring
-// (`reset bring <size>`).  Result = "<ret> <head-start> <tail-start> <empty> <full>".
-struct BRing
-{
-    bytering_head r;
-    std::unique_ptr<exact_buf> buf;
-    std::deque<uint8_t> q;
-    size_t npush = 0, npop = 0; // accepted pushes / pops (positions predicted by the reference, see acc::bring_view)
-    acc::bview view() { return acc::bring_view(r, buf->p, buf->n, npop, npush); }
-};
-static std::unique_ptr<BRing> br;
-static std::string bring_state(BRing &b)
-{
-    acc::bview v = b.view();
-    return S(v.head) + " " + S(v.tail) + " " + S(bytering_empty(&b.r) ? 1 : 0) + " " +
-           S(bytering_full(&b.r) ? 1 : 0);
-}
-static void bring_check(BRing &b, out &o)
-{
-    bytering_head *r = &b.r;
-    size_t size = b.buf->n;
-    acc::bview v = b.view();
-    if (!v.block_ok) o.fail("start/end moved");
-    if (!v.in_range) o.fail("head or tail outside [start,end)");
-    if ((bytering_empty(r) != 0) != b.q.empty()) o.fail("bytering_empty disagrees with reference (" + S(b.q.size()) + " stored)");
-    if ((bytering_full(r) != 0) != (b.q.size() == size - 1)) o.fail("bytering_full disagrees with reference (" + S(b.q.size()) + " stored of " + S(size - 1) + ")");
-    if (b.q.empty()) o.tag("empty");
-    if (b.q.size() == size - 1) o.tag("full");
-    if (size & (size - 1)) o.tag("nonpow2");
-    if (v.tail < v.head) o.tag("wrapped");
-}
-static void run_bring(const std::vector<std::string> &w, out &o)
-{
-    BRing &b = *br;
-    bytering_head *r = &b.r;
-    const std::string &op = w[0];
-    size_t size = b.buf->n;
-    std::string ret = "-";
-    if (op == "push" || op == "pushn")
-    {
-        uint8_t c = unhex(w[1])[0];
-        acc::bview before = b.view();
-        bytes snap = b.buf->vec();
-        bool full = b.q.size() == size - 1;
-        if (op == "pushn")
-        { // unchecked variant: the caller has tested bytering_full itself
-            if (full) { o.result = "bad-op"; return; }
-            bytering_push_nocheck(r, c);
-            b.q.push_back(c); b.npush++;
-        }
-        else
-        {
-            int rc = bytering_push(r, c);
-            ret = S(rc);
-            if (full)
-            {
-                o.tag("reject-full");
-                if (rc != -1) o.fail("push on a full ring returned " + S(rc));
-                if (before.head != b.view().head || before.tail != b.view().tail || snap != b.buf->vec())
-                    o.fail("push on a full ring changed the state");
-            }
-            else
-            {
-                if (rc != 0) o.fail("push with " + S(b.q.size()) + " of " + S(size - 1) + " stored returned " + S(rc));
-                b.q.push_back(c); b.npush++;
-            }
-        }
-        if (c == 0xff) o.tag("ff"); else if (c >= 0x80) o.tag("hi-byte");
-    }
-    else if (op == "pop" || op == "popn")
-    {
-        acc::bview before = b.view();
-        bytes snap = b.buf->vec();
-        bool empty = b.q.empty();
-        if (op == "popn" && empty) { o.result = "bad-op"; return; }
-        int rc = op == "pop" ? bytering_pop(r) : bytering_pop_nocheck(r);
-        ret = S(rc);
-        if (snap != b.buf->vec()) o.fail("pop wrote to the buffer");
-        if (empty)
-        {
-            o.tag("reject-empty");
-            if (rc != -1) o.fail("pop on an empty ring returned " + S(rc));
-            if (before.head != b.view().head || before.tail != b.view().tail) o.fail("pop on an empty ring changed the state");
-        }
-        else
-        {
-            uint8_t exp = b.q.front();
-            b.q.pop_front(); b.npop++;
-            if (rc != (int)exp) o.fail("pop returned " + S(rc) + " for stored byte " + S(exp));
-            if (exp == 0xff) o.tag("ff"); else if (exp >= 0x80) o.tag("hi-byte");
-        }
-    }
-    else if (op == "dump") ret = hex(b.buf->p, size);
-    else { o.result = "bad-op"; return; }
-    bring_check(b, o);
-    o.result = ret + " " + bring_state(b);
-}
-
 
 // ===================================================== round 3: stateless ops
 // ---- `widths`: sizeof / signedness of every index, size and counter type the model embeds
@@ -946,8 +447,7 @@ static void run_hist(const std::vector<std::string> &w, out &o)
 static void run_histt(const std::vector<std::string> &w, out &o)
 {
     int n0 = (int)strtol(w[1].c_str(), 0, 10);
-    tc.t.reset(new igris::ring<char>(n0));
-    tc.q.clear();
+    { out none; tc_reset(n0, none, false); }
     size_t j = 0, k = 0;
     std::string res;
     for (const auto &tok : split(w[2], ','))
@@ -963,7 +463,7 @@ static void run_histt(const std::vector<std::string> &w, out &o)
         for (auto &ww : lines)
         {
             out sub;
-            tc.run(ww, sub);
+            tc_run(ww, sub);
             merge(o, sub, k, tok);
             res += (res.empty() ? "" : ";") + sub.result;
         }
@@ -1079,46 +579,27 @@ static void run_op(const std::vector<std::string> &w, const std::string &, out &
         }
         else if (w.size() == 3 && w[1] == "typed")
         {
-            ti.t.reset(new igris::ring<int>((int)strtol(w[2].c_str(), 0, 10)));
-            ti.q.clear(); kind = 2; ti.check(o);
-            o.result = "- " + ti.state();
+            kind = 2; ti_reset(strtol(w[2].c_str(), 0, 10), o);
         }
         else if (w.size() == 2 && w[1] == "tempty")
         { // default-constructed ring (size 0, no storage): only resize() may follow
-            ti.t.reset(new igris::ring<int>());
-            ti.q.clear(); kind = 2;
-            o.tag("default-ctor");
-            o.result = "- " + ti.state();
+            kind = 2; ti_reset(-1, o);
         }
         else if (w.size() == 3 && w[1] == "tchar")
         {
-            tc.t.reset(new igris::ring<char>((int)strtol(w[2].c_str(), 0, 10)));
-            tc.q.clear(); kind = 3; tc.check(o);
-            o.result = "- " + tc.state();
+            kind = 3; tc_reset(strtol(w[2].c_str(), 0, 10), o, true);
         }
         else if (w.size() == 3 && w[1] == "cyc")
         {
-            cy.cap = strtoul(w[2].c_str(), 0, 10);
-            cy.c.reset(new igris::cyclic_buffer<int>(cy.cap));
-            cy.log.clear(); kind = 4;
-            o.result = "- " + S(acc::cyc_counter(*cy.c, 0)) + " " + S(cy.c->size());
+            kind = 4; reset_cyc(strtoul(w[2].c_str(), 0, 10), o);
         }
         else if (w.size() == 3 && w[1] == "bring")
         {
-            br.reset(new BRing);
-            size_t size = strtoull(w[2].c_str(), 0, 10);
-            br->buf.reset(new exact_buf(size));
-            for (size_t i = 0; i < size; i++) br->buf->p[i] = (uint8_t)(i * 7 + 3);
-            bytering_init(&br->r, br->buf->p, (unsigned)size);
-            kind = 6;
-            bring_check(*br, o);
-            o.result = "- " + bring_state(*br);
+            kind = 6; reset_bring(strtoull(w[2].c_str(), 0, 10), o);
         }
         else if (w.size() == 3 && w[1] == "rc")
         {
-            ring_counter_init(&rcs, (int)strtol(w[2].c_str(), 0, 10));
-            kind = 5;
-            o.result = "- " + S(rcs.counter);
+            kind = 5; reset_rc(strtol(w[2].c_str(), 0, 10), o);
         }
         else o.result = "bad-op";
         return;
@@ -1126,8 +607,8 @@ static void run_op(const std::vector<std::string> &w, const std::string &, out &
     switch (kind)
     {
     case 1: run_cring(w, o); break;
-    case 2: ti.run(w, o); break;
-    case 3: tc.run(w, o); break;
+    case 2: ti_run(w, o); break;
+    case 3: tc_run(w, o); break;
     case 4: run_cyc(w, o); break;
     case 5: run_rc(w, o); break;
     case 6: run_bring(w, o); break;
